@@ -870,7 +870,9 @@ JSON_BODIES = [b"{}", b'{"a": [1, 2, {"b": null}]}', b"", b"[", b'{"a":"\xff"}',
                b"NaN", b"\xef\xbb\xbf{}", b'"\\ud800"', b'"\xed\xa0\x80"', b"\x00", b"{'a': 1}", b'{"a": 1}x',
                b"+AHs-+AH0-", b"xn--\xff.a..b", b"\\", b"\\N{", b"{}" + b" " * 70000]
 URLENC_BODIES = [b"", b"a=1&b=2", b"a=\xff", b"%ff=%zz", b"&&==", b"a=%", b"a=1;b=2", b"\xff\xfe", b"a" * 70000,
-                 b"=" * 2000, b"a=\xe2\x82", b"+AHs-", b"xn--\xff", b"\\", b"%u1234=%00"]
+                 b"=" * 2000, b"a=\xe2\x82", b"+AHs-", b"xn--\xff", b"\\", b"%u1234=%00",
+                 # very many fields / separators (resource limits of the parsers)
+                 b"a=1&" * 1200, b"&" * 5000, b"a=1;" * 1200, b"k=v&" * 20000]
 DATES = ["Mon, 01 Jan 2024 00:00:00 GMT", "", "garbage", "1 Jan 99999999999999999999 00:00:00",
          "Mon, 32 Jan 2024 00:00:00 GMT", "Mon, 01 Jan 2024 25:00:00 GMT", "31 Dec 9999 23:59:59 -2359",
          "1 Jan 0001 00:00:00 +2359", "Thu, 01 Jan 1970 00:00:00 +9999", "Mon, 01 Jan 2024 00:00:00 -0000",
@@ -885,7 +887,7 @@ HOSTS = ["example.com", "www.example.com:8080", "static.example.com", "", "[", "
 CL_VALUES = ["0", "12", "abc", "\u0663", "-1", DIGITS5000, " 12 ", "1_0", "+5", "1e3", "\x00", "\u0661\u0662\u0663", "",
              "12, 12", "0x10", "\xb2"]
 COOKIES = ["a=b", "", "a=b; c", "\"\\", "a=\"\\777\"", "a=\"\\9", "=", ";;=;", "a=\"\\" + "\\" * 2000, "a=" + "\"" * 9999,
-           "\u0663=\u0663", "a=\"\\0\\1\\2\"", "a=\"\\400\"", "\x00=\x00"]
+           "\u0663=\u0663", "a=\"\\0\\1\\2\"", "a=\"\\400\"", "\x00=\x00", "a=b; " * 1500, "a=\"\\089\"", "a=\"\\389\\128\""]
 ACCEPTS = ["text/html", "*/*", "", "text/html;q=", "*/*;" + "\"" * 999, ",,,", "a/b/c;d=\"", "/", ";", "text/*;q=0.\u0663",
            "\x00/\x00", "a" * 70000]
 RANGES = ["bytes=0-9", "bytes=0-", "bytes=-5", "bytes=0-0,2-2", "bytes=5-1", "bytes=200-", "bytes=-0", "bytes=-",
@@ -902,7 +904,7 @@ ROUTER_PATHS = ["/i/12", "/i/" + DIGITS5000, "/i/\u0663", "/i/1\u0663", "/d/1.5"
                 "/t/2024-02-29", "/t/2021-13-45", "/t/0000-01-01", "/t/2023-02-29", "/t/\u0662\u0660\u0662\u0664-01-01",
                 "/s/x", "/s/", "/s/a/b", "/a/anything\n\x00", "/a/", "/zzz", "", "/", "/i/", "/i/1/2", "/t/9999-12-31"]
 QUERIES = ["", "a=b", "%ff=%zz", "\xff", "&&==", "%", "%u1234", "a=1;b=2", "#", "[", "=%00", "a" * 70000, "a=\r\n",
-           "?", "a=%e2%82"]
+           "?", "a=%e2%82", "a=1&" * 1200, "&" * 5000]
 
 
 def multipart_body(boundary=b"B", parts=None):
